@@ -2,6 +2,7 @@ import ClusterVerif.Lemmas.C13Log
 import ClusterVerif.Lemmas.C13Deliv
 import ClusterVerif.Lemmas.C13Import
 import ClusterVerif.Model.C13Flow
+import ClusterVerif.Lemmas.C13Par
 /-!
 C13 — property theorems about the bookkeeping model (Model/C13.lean) of the adders' DAG
 services. They hold for every block stream, every allocation script, every script of
@@ -658,3 +659,129 @@ example : fromFiles ⟨.unixfs, false, false, [some 7, none, some 9], none, none
     fromFiles ⟨.unixfs, false, true, [some 7], none, none, false⟩ = ⟨[], none⟩ := by decide
 
 end CV.C13.Flow
+
+/-! ## Round 8b — parameter plumbing: the request's import parameters reach the importer unchanged
+
+`Gen.newIpfsAdder` / `Gen.ipfsAdd` are read from adder/adder.go and adder/ipfsadd/add.go by `harness/extract_c13par`
+(statements with their right-hand sides as expression trees) and INTERPRETED by `Par.settingsOf` / `Par.importerOf`
+(Model/C13Par.lean). The theorems are proved by running the interpreter symbolically on the generated programs themselves, not
+through a textual equality: a rewrite that keeps the meaning still checks, an edit that changes a value for some request does not. "Equals what the standard importer computes for the same parameters" needs every explicit
+request value to be the importer's value: `Par.expected`, written from the property text. -/
+namespace CV.C13.Par
+
+/-- the importer constants of the linked libraries are the ones the importer model (Model/C13Import.lean) is written
+    with (width 174, trickle repeat 4, default chunk 262144) and meet the hypotheses of its theorems (`W ≥ 2`, `n > 0`) -/
+theorem gen_importer_constants :
+    Gen.linksPerBlock = ({} : Imp.Params).width ∧ Gen.defaultChunk = ({} : Imp.Params).chunkSize ∧
+    Gen.depthRepeat = 4 ∧ Gen.depthRepeatFound = true ∧ Gen.sha256 = sha256Code ∧
+    2 ≤ Gen.linksPerBlock ∧ 0 < Gen.defaultChunk ∧ Gen.defaultChunk ≤ Gen.chunkSizeLimit := by decide
+
+/-- **Explicit request values reach the importer unchanged**: for EVERY request (layout, chunker string, raw-leaves,
+    no-copy, progress, CID version, hash name) and every table of hash names, the program read from `newIpfsAdder`
+    configures the importer exactly as the request says — or refuses it for an unknown CID version / hash name or
+    CIDv0 with another hash than sha2-256. -/
+theorem params_reach_importer (names : List (String × Nat)) (r : Req) :
+    settingsOf names Gen.newIpfsAdder r = expected names r := by
+  exact gen_settings names r
+
+/-- field by field: when an importer is built, raw-leaves, no-copy, chunker string and progress are the request's,
+    trickle iff the layout is "trickle", the CID builder is the requested version (0 or 1) with the requested hash
+    function (and sha2-256 for version 0) and the default digest length. No value is derived from another one. -/
+theorem explicit_values_unchanged (names : List (String × Nat)) (r : Req) (s : Settings)
+    (h : settingsOf names Gen.newIpfsAdder r = .built s) :
+    s.rawLeaves = r.rawLeaves ∧ s.noCopy = r.noCopy ∧ s.chunker = r.chunker ∧ s.progress = r.progress ∧
+    s.trickle = (r.layout == "trickle") ∧ (r.cidVersion = 0 ∨ r.cidVersion = 1) ∧
+    ∃ hc, lookup names (lower r.hashFun) = some hc ∧ s.builder = some ⟨r.cidVersion.toNat, hc, true⟩ ∧
+      (r.cidVersion = 0 → hc = sha256Code) := by
+  rw [params_reach_importer] at h
+  exact expected_built names r s h
+
+/-- second hop, `(*ipfsadd.Adder).add`: `DagBuilderParams`, `chunker.FromString` and the layout switch get the switches
+    as they are, the width is `DefaultLinksPerBlock` -/
+theorem importer_gets_settings (links : Nat) (s : Settings) :
+    importerOf links Gen.ipfsAdd s = some ⟨s.chunker, s.rawLeaves, links, s.noCopy, s.builder, s.trickle⟩ := by
+  exact gen_importerOf links s
+
+/-- both hops: request → what go-unixfs is run with -/
+theorem plumb_end_to_end (names : List (String × Nat)) (links : Nat) (r : Req) :
+    plumb names links Gen.newIpfsAdder Gen.ipfsAdd r =
+      some (match expected names r with
+            | .built s => some ⟨s.chunker, s.rawLeaves, links, s.noCopy, s.builder, s.trickle⟩
+            | _ => none) := by
+  unfold plumb
+  rw [params_reach_importer]
+  cases he : expected names r with
+  | built s => simp [importer_gets_settings]
+  | refused => rfl
+  | malformed =>
+    exfalso
+    unfold expected at he
+    split_ifs at he
+    cases hl : lookup names (lower r.hashFun) with
+    | none => simp [hl] at he
+    | some hc =>
+      simp only [hl] at he
+      split_ifs at he
+
+/-- a rewrite that keeps the meaning (builder taken before the hash is written — a pointer —, assignments in another
+    order) is interpreted to the same settings: the tie is semantic, not textual -/
+theorem harmless_reorder_same (names : List (String × Nat)) (r : Req) :
+    settingsOf names builderEarly r = settingsOf names Gen.newIpfsAdder r := by
+  rw [params_reach_importer]
+  exact builderEarly_settings names r
+
+/-- refutations — the programs a plausible edit gives do NOT pass the request on:
+    `forcedRaw` (seeded change C13f: raw leaves implied by CIDv1 / no-copy) imports an explicit `raw-leaves=false`,
+    `cid-version=1` request with raw leaves; `rawDropped` never sets raw leaves; `hashDropped` hashes with sha2-256
+    whatever was asked. -/
+theorem edited_programs_change_request :
+    (∃ r s, settingsOf [("sha2-256", 18), ("sha2-512", 19)] forcedRaw r = .built s ∧ r.rawLeaves = false ∧ s.rawLeaves = true) ∧
+    (∃ r s, settingsOf [("sha2-256", 18), ("sha2-512", 19)] rawDropped r = .built s ∧ r.rawLeaves = true ∧ s.rawLeaves = false) ∧
+    (∃ r s, settingsOf [("sha2-256", 18), ("sha2-512", 19)] hashDropped r = .built s ∧
+        lookup [("sha2-256", 18), ("sha2-512", 19)] (lower r.hashFun) = some 19 ∧ s.builder = some ⟨1, 18, true⟩) := by
+  refine ⟨⟨⟨"", "", false, false, false, 1, "sha2-256"⟩, _, rfl, rfl, rfl⟩,
+          ⟨⟨"", "", true, false, false, 0, "sha2-256"⟩, _, rfl, rfl, rfl⟩,
+          ⟨⟨"", "", false, false, false, 1, "SHA2-512"⟩, _, rfl, by decide, rfl⟩⟩
+
+/-- fail-closed: a statement the translator did not recognise never yields an importer -/
+theorem unknown_statement_never_built (names : List (String × Nat)) (r : Req) (pre post : List POp) (s : Settings)
+    (hpre : ∀ op ∈ pre, op ≠ .retAdder) : settingsOf names (pre ++ .other :: post) r ≠ .built s := by
+  unfold settingsOf
+  generalize ({} : St) = st
+  induction pre generalizing st with
+  | nil => simp [exec]
+  | cons op ops ih =>
+    have hop : op ≠ .retAdder := hpre op (by simp)
+    have ih' : ∀ st', exec names r (ops ++ POp.other :: post) st' ≠ Outcome.built s :=
+      fun st' => ih (fun o ho => hpre o (List.mem_cons_of_mem _ ho)) st'
+    cases op
+    case retAdder => exact absurd rfl hop
+    all_goals simp only [List.cons_append, exec]
+    all_goals (repeat' split)
+    all_goals first | exact ih' _ | simp
+
+/-- go-ipfs-chunker `FromString`: a size splitter never has size 0 (the hypothesis `0 < n` of `chunk_concat`,
+    `chunk_sizes`, `readback_*` is met by every accepted chunker string) and is the default or at most the limit;
+    `""` and `"default"` are the default size -/
+theorem chunker_string_sound (s : String) (n : Nat) (h : parseChunker Gen.defaultChunk Gen.chunkSizeLimit s = .size n) :
+    0 < n ∧ n ≤ Gen.chunkSizeLimit := by
+  have := parseChunker_size Gen.defaultChunk Gen.chunkSizeLimit s n (by decide) h
+  have hd : Gen.defaultChunk ≤ Gen.chunkSizeLimit := by decide
+  omega
+
+theorem chunker_string_default : parseChunker Gen.defaultChunk Gen.chunkSizeLimit "" = .size Gen.defaultChunk ∧
+    parseChunker Gen.defaultChunk Gen.chunkSizeLimit "default" = .size Gen.defaultChunk :=
+  parseChunker_default _ _
+
+example : parseChunker 262144 1048576 "size-64" = .size 64 ∧ parseChunker 262144 1048576 "size-0" = .refused ∧
+    parseChunker 262144 1048576 "size-10-20" = .size 10 ∧ parseChunker 262144 1048576 "size-1048577" = .refused ∧
+    parseChunker 262144 1048576 "size-" = .refused ∧ parseChunker 262144 1048576 "rabin-16-32-64" = .unmodelled ∧
+    parseChunker 262144 1048576 "sized" = .refused := by decide
+
+example : settingsOf Gen.hashNames Gen.newIpfsAdder ⟨"trickle", "size-64", false, false, true, 1, "Blake2b-256"⟩ =
+    .built ⟨true, false, "size-64", true, false, true, some ⟨1, 0xb220, true⟩⟩ ∧
+    settingsOf Gen.hashNames Gen.newIpfsAdder ⟨"", "", true, false, false, 0, "sha2-512"⟩ = .refused ∧
+    settingsOf Gen.hashNames Gen.newIpfsAdder ⟨"", "", true, false, false, 2, "sha2-256"⟩ = .refused ∧
+    settingsOf Gen.hashNames Gen.newIpfsAdder ⟨"", "", true, false, false, 1, "nohash"⟩ = .refused := by decide
+
+end CV.C13.Par
